@@ -396,6 +396,65 @@ def _fresh_run(pid, cases, model):
     raise RuntimeError('fresh interpreter gave no result: rc=%s %s' % (p.returncode, p.stderr.decode('utf-8', 'replace')[-300:]))
 
 
+def _fresh_oracle(pid, cases):
+    """impl of `cases` in order in a fresh interpreter; -> the oracle's message on the last one (None = it holds there)"""
+    p = subprocess.run([sys.executable, '-m', 'harness.fresh', pid], cwd=VERIF, env=dict(os.environ), timeout=600,
+                       input=json.dumps({'cases': cases, 'model': None, 'oracle': True}).encode('utf-8'),
+                       stdout=subprocess.PIPE, stderr=subprocess.PIPE)
+    for line in p.stdout.decode('utf-8', 'replace').split('\n'):
+        if line.startswith('FRESH-RESULT '):
+            return json.loads(line[len('FRESH-RESULT '):]).get('oracle')
+    raise RuntimeError('fresh interpreter gave no result: rc=%s %s' % (p.returncode, p.stderr.decode('utf-8', 'replace')[-300:]))
+
+
+def standalone_failure(pid, cases, failures, max_probe=4, budget=26):
+    """among the first oracle failures of a run, one that fails ALONE in a fresh interpreter (the replay of that input then
+    reproduces it); when none does, the first failure together with the shortest prefix of the run found to make it fail.
+    -> (index into failures, history | None)"""
+    index = {}
+    for i, c in enumerate(cases):
+        index.setdefault(json.dumps(c, sort_keys=True), i)
+    probed = []
+    t_end = time.time() + 900          # the probe is an aid to the report, not part of the verdict: fifteen minutes at most
+    # the first failure of every kind of case first, then the others in the order of the run
+    firsts, rest, seen_kinds = [], [], set()
+    for j, (c, _m) in enumerate(failures):
+        k = c.get('kind') if isinstance(c, dict) else None
+        (rest if k in seen_kinds else firsts).append(j)
+        seen_kinds.add(k)
+    for j in (firsts + rest)[:max_probe]:
+        if time.time() > t_end:
+            break
+        c = failures[j][0]
+        try:
+            json.dumps(c)
+        except (TypeError, ValueError):
+            continue
+        budget -= 1
+        if _fresh_oracle(pid, [c]):
+            return j, None
+        probed.append(j)
+    if not probed:
+        return 0, None
+    j = probed[0]
+    c = failures[j][0]
+    i = index.get(json.dumps(c, sort_keys=True))
+    if i is None or i == 0:
+        return j, None
+    lo, hi = 0, i
+    while hi - lo > 1 and budget > 0 and time.time() < t_end:
+        mid = (lo + hi) // 2
+        budget -= 1
+        if _fresh_oracle(pid, cases[:mid] + [c]):
+            hi = mid
+        else:
+            lo = mid
+    history = cases[:hi]
+    if hi - lo == 1 and budget > 0 and time.time() < t_end and _fresh_oracle(pid, [cases[hi - 1], c]):
+        history = [cases[hi - 1]]
+    return j, history
+
+
 def fresh_process_probe(pid, cases, model_ans, disagreements, max_probe=4, budget=14):
     """-> None | (case, history (list of earlier cases), message)"""
     index = {}
@@ -633,13 +692,26 @@ def run_check(plugin, tier, seed, replay=None):
                      'oracle': hf['oracle'], 'seed': seed, 'tier': tier, 'build_failures': out.build_failures,
                      'disagreements': [{'case': d[0], 'impl': str(d[1])[:300], 'model': d[2][:300]} for d in out.disagreements[:5]]}
     elif new_failures:
-        if hasattr(plugin, 'shrink'):
+        # the failure reported is one that fails ALONE in a fresh interpreter, so that its replay reproduces it; a failure that
+        # needs what the process evaluated before it is reported together with that history
+        history = None
+        if replay is None and getattr(plugin, 'FRESH_REPLAY', True):
+            try:
+                j, history = standalone_failure(pid, cases, new_failures)
+                if j:
+                    new_failures.insert(0, new_failures.pop(j))
+            except Exception as e:
+                out.notes.append('standalone probe of the oracle failures failed: %r' % (e,))
+        if hasattr(plugin, 'shrink') and not history:
             try:
                 new_failures[0] = plugin.shrink(new_failures[0][0], new_failures[0][1])
             except Exception:
                 pass
         c, msg = new_failures[0]
+        if history:
+            msg += ' [this input fails after the %d earlier case(s) of the run listed under "cases"; alone in a fresh process it does not]' % len(history)
         violation = {'property': pid, 'kind': 'failing-input', 'case': c, 'oracle': msg,
+                     'cases': (history[-5000:] + [c]) if history else [],
                      'more': [{'case': cc, 'oracle': mm} for cc, mm in new_failures[1:6]],
                      'build_failures': out.build_failures,
                      'disagreements': [{'case': d[0], 'impl': str(d[1])[:300], 'model': d[2][:300]} for d in out.disagreements[:5]]}
